@@ -78,6 +78,29 @@ func c13MutSdp(r *sim.Rng, sdp string) string {
 	if sel >= 16 {
 		sel = 0 // clock rates are used as divisors in several places: weight them
 	}
+	if c13V >= 2 && r.Bool(0.12) {
+		// a media section with a static payload type and no rtpmap (codecs a server may know by number only), in place of
+		// or next to the existing sections
+		kind := []string{"audio", "audio", "video"}[r.Intn(3)]
+		pt := []int{0, 3, 4, 5, 8, 9, 10, 11, 14, 15, 18, 25, 26, 31, 32, 33, 34, 35, 72, 95, 127}[r.Intn(21)]
+		sec := []string{fmt.Sprintf("m=%s 0 RTP/AVP %d", kind, pt), "a=control:streamid=7"}
+		if r.Bool(0.5) {
+			// replace every section of that kind
+			var kept []string
+			skip := false
+			for _, l := range lines {
+				if strings.HasPrefix(l, "m=") {
+					skip = strings.HasPrefix(l, "m="+kind)
+				}
+				if !skip {
+					kept = append(kept, l)
+				}
+			}
+			lines = kept
+		}
+		lines = append(lines, sec...)
+		return strings.Join(lines, "\r\n") + "\r\n"
+	}
 	switch sel {
 	case 0: // clock rates
 		if i := pick("a=rtpmap"); i >= 0 {
@@ -515,7 +538,7 @@ func genC13Plan(r *sim.Rng, tier string) C13Plan {
 		p.Items = c13ApiBodies(r, n)
 	case "up_rtmp":
 		for i := 0; i < 1+r.Intn(3); i++ {
-			p.Items = append(p.Items, C13Item{Kind: "origin", Shape: r.Intn(8), N: r.Intn(400), Seed: r.U64()})
+			p.Items = append(p.Items, C13Item{Kind: "origin", Shape: []int{0, 1, 2, 3, 4, 4, 4, 5, 6, 7}[r.Intn(10)], N: r.Intn(400), Seed: r.U64()})
 		}
 	case "up_rtsp":
 		p.Items = c13UpstreamRtsp(r, 2+r.Intn(6))
@@ -625,15 +648,24 @@ func runC13(k *sim.Kernel, p C13Plan) {
 		case 0:
 			st.Garbage = randBytes(it.Seed, it.N)
 		case 1: // a _result with mutated AMF
-			st.Garbage = rawChunk(WireItem{Csid: 3, Type: 20, Fmt: 0}, genPayload(WireItem{Gen: []string{"amf_nest_obj", "amf_bigcount", "amf_shortlong", "rand"}[r.Intn(4)], N: 5000, Seed: it.Seed}))
+			st.Garbage = rawChunk(WireItem{Csid: 3, Type: 20, Fmt: 0, Len: -1}, genPayload(WireItem{Gen: []string{"amf_nest_obj", "amf_bigcount", "amf_shortlong", "rand"}[r.Intn(4)], N: 5000, Seed: it.Seed}))
 		case 2:
 			st.DieAfterConnect = true
 		case 3:
 			st.DieAfterHandshake = true
 		case 4: // valid handshake, then media the client never asked for / odd control messages
-			st.Garbage = append(rawChunk(WireItem{Csid: 2, Type: r.Intn(8), Fmt: 0}, randBytes(it.Seed, r.Intn(8))), rawChunk(WireItem{Csid: 6, Type: 9, Fmt: 0, Msid: 1}, genPayload(WireItem{Gen: "video_hdr", Shape: r.Intn(64), N: r.Intn(9), Seed: it.Seed}))...)
+			ctl := rawChunk(WireItem{Csid: 2, Type: r.Intn(8), Fmt: 0, Len: -1}, randBytes(it.Seed, r.Intn(8)))
+			if c13V >= 2 && r.Bool(0.6) {
+				// user control messages: every event type with 0..8 bytes behind it
+				sh := r.Intn(64)
+				if r.Bool(0.5) {
+					sh = []int{6, 7, 3, 0}[r.Intn(4)] // ping request / response, set buffer length, stream begin: the ones with fields
+				}
+				ctl = rawChunk(WireItem{Csid: 2, Type: 4, Fmt: 0, Len: -1}, genPayload(WireItem{Gen: "userctl", Shape: sh, N: r.Intn(9), Seed: it.Seed}))
+			}
+			st.Garbage = append(ctl, rawChunk(WireItem{Csid: 6, Type: 9, Fmt: 0, Msid: 1, Len: -1}, genPayload(WireItem{Gen: "video_hdr", Shape: r.Intn(64), N: r.Intn(9), Seed: it.Seed}))...)
 		case 5: // onStatus / _result with odd argument types
-			st.Garbage = rawChunk(WireItem{Csid: 3, Type: 20, Fmt: 0}, cmdPayload(WireItem{Name: []string{"_result", "onStatus", "_error", "onBWDone"}[r.Intn(4)], Shape: r.Intn(10), N: r.Intn(5)}))
+			st.Garbage = rawChunk(WireItem{Csid: 3, Type: 20, Fmt: 0, Len: -1}, cmdPayload(WireItem{Name: []string{"_result", "onStatus", "_error", "onBWDone"}[r.Intn(4)], Shape: r.Intn(10), N: r.Intn(5)}))
 		case 6: // chunk headers
 			st.Garbage = rawChunk(WireItem{Kind: "badchunk", Fmt: r.Intn(4), Csid: []int{0, 1, 2, 64, 65535}[r.Intn(5)], Shape: r.Intn(3), Type: 20, Len: []int{-1, 0, 0xFFFFFF, 70000}[r.Intn(4)], Ts: 0xFFFFFF}, randBytes(it.Seed, it.N))
 		default:
